@@ -23,7 +23,7 @@ Same model and vocabulary as C01. Proved here:
   items, each once, is accepted).
 -/
 namespace Nri.Props.C02
-open Nri Nri.Api Nri.Result Nri.Ledger
+open Nri Nri.NApi Nri.Result Nri.Ledger
 
 /-- every owner of the ledger is a plugin of `done` whose response set that item -/
 def OwnedFrom (k : Kind) (done : List (Plugin × Option Response)) (o : Owners) : Prop :=
